@@ -279,6 +279,7 @@ type runner struct {
 	// confirmed in a fresh one before it is reported.
 	dirty   bool
 	pending []pendingViolation
+	seenSig map[string]bool
 }
 
 type pendingViolation struct{ kind, sig, detail, input string }
@@ -312,7 +313,7 @@ else
 end`
 
 func newRunner(c *vp.Child) *runner {
-	r := &runner{c: c, cpu: 5000}
+	r := &runner{c: c, cpu: 5000, seenSig: map[string]bool{}}
 	r.reset()
 	return r
 }
@@ -566,6 +567,8 @@ func (cs *Case) classes() string {
 			switch {
 			case f != math.Floor(f) || math.IsInf(f, 0):
 				p = append(p, "frac")
+			case cs.Fn == "string.rep" && f < 0:
+				p = append(p, "n<0.0")
 			case math.Abs(f) >= 9.2e18:
 				p = append(p, "bigfloat")
 			case cs.Fn == "string.rep":
@@ -715,6 +718,13 @@ func (r *runner) confirmed(exec func()) {
 		exec()
 	}
 	for _, p := range r.pending {
+		// one witness per signature and batch (the first, which is the smallest
+		// in the enumerations): a flood of one finding must not fill the cap
+		if r.seenSig[p.kind+" "+p.sig] {
+			r.c.Feature("violations-same-signature", 1)
+			continue
+		}
+		r.seenSig[p.kind+" "+p.sig] = true
 		r.c.Violation(p.kind, p.sig, p.detail, p.input)
 	}
 	r.pending = r.pending[:0]
